@@ -68,11 +68,25 @@ Obscure(key) ==
 KeyAddr(addr) == W((addr % M16) \div 256, (addr % 256) * 256)
 
 (* time is a word.  Bit 23 of the time (bit 7 of the high half) selects the *)
-(* table; the time enters as time >> 6.                                     *)
+(* table; the time enters as time >> 6, mixed with the address.  The key is *)
+(* a function of BOTH the table and the mixed value.                        *)
+TableOf(time) == (time[1] \div 128) % 2                    \* 0: KEY1, 1: KEY1B
+SeedOf(time, addr) == WXor(Shr(time, 6), KeyAddr(addr))    \* what is fed to Obscure
 MakeKey(time, addr) ==
-  LET tab == IF (time[1] \div 128) % 2 = 1 THEN KEY1B ELSE KEY1
-      mix == WXor(Shr(time, 6), KeyAddr(addr))
+  LET tab == IF TableOf(time) = 1 THEN KEY1B ELSE KEY1
+      mix == SeedOf(time, addr)
   IN [i \in 1..4 |-> WXor(Obscure(WXor(tab[i], mix)), KeyMask)]
+
+(* Twins.  Bits 14..29 of the time and bits 0..15 of the address meet in    *)
+(* bits 8..23 of SeedOf: flipping time bit 14 + j together with address bit *)
+(* j (j in 0..15, mask d) leaves SeedOf unchanged.  When d contains bit 9   *)
+(* (time bit 23) the twin uses the OTHER key table, hence another key: two  *)
+(* transmissions that agree on SeedOf and must not be confused.  (The low 6 *)
+(* bits of the time and address bits 16..23 do not enter the key at all.)   *)
+TwinBit == 512                                             \* j = 9 <-> time bit 23
+TwinTime(time, d) == <<time[1] ^^ (d \div 4), time[2] ^^ ((d % 4) * 16384)>>
+TwinAddr(addr, d) == (addr \div M16) * M16 + ((addr % M16) ^^ d)
+IsTwinMask(d) == d \in 0..(M16 - 1) /\ (d \div TwinBit) % 2 = 1
 
 ---------------------------------------------------------------------------
 (* XXTEA ("Corrected Block TEA") over n words, Rounds rounds.               *)
